@@ -303,12 +303,231 @@ theorem cut_visit_ok (env : Env) (w : IntTy) (p p' : Parts) (hp : IntFacts w p) 
     simp only [visitNumber, FromValue.numberInt, Bool.false_eq_true, if_false, FromValue.visitInt]
     rw [if_pos (inRange_between_neg w _ _ hle hr)]
 
-/-! ## `IntPre` -/
+/-! ## 128-bit targets: `scan_integer128` + `str::parse` -/
 
 variable {A : Code → Prop} {b : Bytes} {N : Nat} {env : Env}
 
-theorem intPre (hflt : env.flt = false) (hAe : ∀ c, classify c = .eof → A c) (hAn : A .NumberOutOfRange) : IntPre A b N env := by
-  intro w
+/-- the digits of a literal against the digits of a prefix of it -/
+def DigCut (ds ds' : Bytes) : Prop := ∃ tl, ds = ds' ++ tl
+
+theorem scanDigits_shape (acc : Bytes) (rest : Bytes) (pos : Nat) (ds r : Bytes) (p : Nat)
+    (h : scanDigits env acc rest pos = .ok ds r p) : ∃ m, ds = acc.reverse ++ m ∧ IsDigits m := by
+  induction rest generalizing acc pos with
+  | nil =>
+    unfold scanDigits at h
+    split at h
+    · simp at h
+    · cases h; exact ⟨[], by simp, fun c hc => by simp at hc⟩
+  | cons c r0 ih =>
+    unfold scanDigits at h
+    split at h
+    · rename_i hd
+      obtain ⟨m, hm, hdm⟩ := ih _ _ h
+      refine ⟨c :: m, by rw [hm]; simp, fun x hx => ?_⟩
+      rcases List.mem_cons.mp hx with rfl | hx
+      · exact (isDigit_iff _).1 hd
+      · exact hdm x hx
+    · cases h; exact ⟨[], by simp, fun c hc => by simp at hc⟩
+
+theorem preC_scanDigits (hflt : env.flt = false) (acc : Bytes) : PreCF DigCut A b N (scanDigits env acc) := by
+  intro a
+  induction a generalizing acc with
+  | nil =>
+    intro pos hN
+    have : scanDigits env acc [] pos = .ok acc.reverse [] pos := by simp [scanDigits, hflt]
+    rw [this]
+    simp only [List.length_nil, Nat.add_zero] at hN
+    rw [hN]
+    refine PreC.of_end_ok _ _ fun x r p hx => ?_
+    obtain ⟨m, hm, _⟩ := scanDigits_shape _ _ _ _ _ _ hx
+    exact ⟨m, hm⟩
+  | cons c r ih =>
+    intro pos hN
+    simp only [List.cons_append, scanDigits]
+    simp only [List.length_cons] at hN
+    by_cases hd : Machine.isDigit c = true
+    · simp only [if_pos hd]
+      exact ih (c :: acc) (pos + 1) (by omega)
+    · simp only [if_neg hd]
+      show PreC DigCut A b N (.ok _ ((c :: r) ++ b) _) (.ok _ (c :: r) _)
+      exact .same (by simp only [List.length_cons]; omega)
+
+theorem scanInteger128_ok (rest : Bytes) (pos : Nat) (ds r : Bytes) (p : Nat)
+    (h : scanInteger128 env rest pos = .ok ds r p) : IsDigits ds ∧ ds ≠ [] := by
+  unfold scanInteger128 at h
+  split at h
+  · exact absurd h (atEof_ne_ok _ _ _ _ _ _)
+  · rename_i c r0
+    by_cases h1 : (c == 0x30) = true
+    · simp only [if_pos h1] at h
+      have hc : c = 0x30 := by simpa using h1
+      have key : ds = [c] := by
+        repeat' split at h
+        all_goals first
+          | (simp at h; done)
+          | (cases h; rfl)
+      rw [key, hc]
+      exact ⟨fun x hx => by simp at hx; subst hx; decide, by simp⟩
+    · simp only [if_neg h1] at h
+      split at h
+      · rename_i hd
+        obtain ⟨m, hm, hdm⟩ := scanDigits_shape _ _ _ _ _ _ h
+        rw [hm]
+        refine ⟨fun x hx => ?_, by simp⟩
+        simp only [List.reverse_cons, List.reverse_nil, List.nil_append, List.singleton_append, List.mem_cons] at hx
+        rcases hx with rfl | hx
+        · exact (isDigit_iff _).1 hd
+        · exact hdm x hx
+      · simp at h
+
+theorem preC_scanInteger128 (hflt : env.flt = false) (hAe : ∀ c, classify c = .eof → A c) :
+    PreCF DigCut A b N (scanInteger128 env) := by
+  intro a pos hN
+  cases a with
+  | nil =>
+    have : scanInteger128 env [] pos = .err .EofWhileParsingValue pos := by simp [scanInteger128, atEof_eq hflt]
+    rw [this]
+    simp only [List.length_nil, Nat.add_zero] at hN
+    rw [hN]
+    exact PreC.of_end_err _ (hAe _ rfl)
+  | cons c r =>
+    simp only [List.cons_append, scanInteger128]
+    simp only [List.length_cons] at hN
+    by_cases h1 : (c == 0x30) = true
+    · simp only [if_pos h1]
+      cases r with
+      | nil =>
+        simp only [hflt, Bool.false_eq_true, ↓reduceIte]
+        simp only [List.length_nil] at hN
+        rw [show pos + 1 = N by omega]
+        refine PreC.of_end_ok _ _ fun x r p hx => ?_
+        simp only [List.nil_append] at hx
+        repeat' split at hx
+        all_goals first
+          | (simp at hx; done)
+          | (cases hx; exact ⟨[], by simp⟩)
+      | cons d tl =>
+        simp only [List.cons_append]
+        split
+        · exact .fail (by simp)
+        · show PreC DigCut A b N (.ok _ ((d :: tl) ++ b) _) (.ok _ (d :: tl) _)
+          exact .same (by simp only [List.length_cons] at hN ⊢; omega)
+    · simp only [if_neg h1]
+      split
+      · exact preC_scanDigits hflt [c] r (pos + 1) (by omega)
+      · exact .fail (by simp)
+
+theorem all_isDigit_of (ds : Bytes) (h : IsDigits ds) : ds.all Spec.Grammar.isDigit = true := by
+  rw [List.all_eq_true]
+  intro x hx
+  have := h x hx
+  simp [Spec.Grammar.isDigit, this.1, this.2]
+
+/-- `str::parse::<i128/u128>` on the scanned text: sign, then the range check of the digits' value -/
+theorem parse128 (w : IntTy) (neg : Bool) (hs : neg = true → w.signed = true) (ds : Bytes) (hd : IsDigits ds) (hne : ds ≠ []) :
+    FromValue.rustParseInt w (if neg then 0x2d :: ds else ds) =
+      FromValue.rangeChecked w (if neg then -(natOfDigits ds : Int) else natOfDigits ds) := by
+  have hall := all_isDigit_of ds hd
+  have hemp : ds.isEmpty = false := by cases ds <;> simp_all
+  cases neg with
+  | true =>
+    simp only [if_true, FromValue.rustParseInt, FromValue.signSplit, hs rfl]
+    simp [FromValue.parseDigits, hall, hemp]
+  | false =>
+    cases ds with
+    | nil => exact absurd rfl hne
+    | cons c r =>
+      have hc := hd c (by simp)
+      have h1 : (c == 0x2b) = false := by
+        have := UInt8.le_iff_toNat_le.1 hc.1
+        change 48 ≤ c.toNat at this
+        simp only [beq_eq_false_iff_ne, ne_eq]
+        intro e; subst e; simp at this
+      have h2 : (c == 0x2d) = false := by
+        have := UInt8.le_iff_toNat_le.1 hc.1
+        change 48 ≤ c.toNat at this
+        simp only [beq_eq_false_iff_ne, ne_eq]
+        intro e; subst e; simp at this
+      simp only [Bool.false_eq_true, if_false, FromValue.rustParseInt, FromValue.signSplit, h1, h2, Bool.false_and]
+      simp [FromValue.parseDigits, hall]
+
+theorem rangeChecked_mono (w : IntTy) (neg : Bool) (n' n : Nat) (h : n' ≤ n) (x : Int)
+    (hx : FromValue.rangeChecked w (if neg then -(n : Int) else n) = some x) :
+    ∃ x', FromValue.rangeChecked w (if neg then -(n' : Int) else n') = some x' := by
+  unfold FromValue.rangeChecked at hx ⊢
+  cases neg with
+  | true =>
+    simp only [if_true] at hx ⊢
+    split at hx
+    · rename_i hr
+      rw [if_pos (inRange_between_neg w n' n h hr)]
+      exact ⟨_, rfl⟩
+    · cases hx
+  | false =>
+    simp only [Bool.false_eq_true, if_false] at hx ⊢
+    split at hx
+    · rename_i hr
+      rw [if_pos (inRange_between_pos w n' n h hr)]
+      exact ⟨_, rfl⟩
+    · cases hx
+
+theorem pre_deInt128 (hflt : env.flt = false) (hAe : ∀ c, classify c = .eof → A c) (w : IntTy) : PreF A b N (deInt128 env w) := by
+  unfold deInt128
+  refine pre_withPeek hflt hAe rfl fun x r p hp => ?_
+  simp only
+  have fin : ∀ (neg : Bool), (neg = true → w.signed = true) → PreF A b N (fun rr pp => (scanInteger128 env rr pp).bind fun ds rest' pos' =>
+      match FromValue.rustParseInt w (if neg then 0x2d :: ds else ds) with
+      | some x => (.ok (.int x) rest' pos' : TOut)
+      | none => .err .NumberOutOfRange (errorIdx env rest' pos' true)) := by
+    intro neg hs a pos hN
+    have hpre := preC_scanInteger128 (b := b) hflt hAe a pos hN
+    dsimp only
+    cases hF : scanInteger128 env (a ++ b) pos with
+    | ok ds rf pf =>
+      cases hG : scanInteger128 env a pos with
+      | ok ds' rg pg =>
+        rw [hF, hG] at hpre
+        simp only [Res.bind]
+        cases hpre with
+        | same hp' =>
+          split
+          · exact .same hp'
+          · exact .fail (by simp)
+        | cut hc =>
+          obtain ⟨tl, htl⟩ := hc
+          have ho := scanInteger128_ok _ _ _ _ _ hF
+          have ho' := scanInteger128_ok _ _ _ _ _ hG
+          rw [parse128 w neg hs ds ho.1 ho.2, parse128 w neg hs ds' ho'.1 ho'.2]
+          cases hx : FromValue.rangeChecked w (if neg then -(natOfDigits ds : Int) else natOfDigits ds) with
+          | none => simp only; exact .fail (by simp)
+          | some xv =>
+            have hle : natOfDigits ds' ≤ natOfDigits ds := by
+              rw [htl, natOfDigits_eq_val, natOfDigits_eq_val]; exact val_prefix_le _ _ _
+            obtain ⟨x', hx'⟩ := rangeChecked_mono w neg _ _ hle xv hx
+            rw [hx']
+            exact .cut trivial
+        | fail h => exact absurd rfl (h _ _ _)
+      | err c i =>
+        rw [hF, hG] at hpre
+        cases hpre with
+        | eof hc => exact Pre.of_atEnd _ (atEnd_err hc)
+        | fail h => exact absurd rfl (h _ _ _)
+      | data i => rw [hF, hG] at hpre; cases hpre with | fail h => exact absurd rfl (h _ _ _)
+      | raw r' p' => rw [hF, hG] at hpre; cases hpre with | fail h => exact absurd rfl (h _ _ _)
+      | io => rw [hF, hG] at hpre; cases hpre with | fail h => exact absurd rfl (h _ _ _)
+      | fuel => rw [hF, hG] at hpre; cases hpre with | fail h => exact absurd rfl (h _ _ _)
+    | _ => exact .fail (by simp [Res.bind])
+  split
+  · split
+    · rename_i hsg
+      exact fin true (fun _ => hsg) r (p + 1) (by omega)
+    · exact .fail (by simp)
+  · exact fin false (fun h => by cases h) (x :: r) p (by simp only [List.length_cons]; omega)
+
+/-! ## `IntPre` -/
+
+theorem pre_deNumber_int (hflt : env.flt = false) (hAe : ∀ c, classify c = .eof → A c) (w : IntTy) :
+    PreF A b N (deNumber env (.int w)) := by
   unfold deNumber
   refine pre_withPeek hflt hAe rfl fun x r p hp => ?_
   split
@@ -367,5 +586,13 @@ theorem intPre (hflt : env.flt = false) (hAe : ∀ c, classify c = .eof → A c)
       rw [hF]
       exact .fail (by simp [Res.bind])
   · exact pre_peekInvalidType
+
+/-- the integer targets: `deserialize_i8 … deserialize_u128` -/
+theorem intPre (hflt : env.flt = false) (hAe : ∀ c, classify c = .eof → A c) : IntPre A b N env := by
+  intro w
+  unfold deInt
+  split
+  · exact pre_deInt128 hflt hAe w
+  · exact pre_deNumber_int hflt hAe w
 
 end SJ.Proofs.Typed
